@@ -152,56 +152,3 @@ Proof.
         intro Hs0; subst s; rewrite Z.mod_0_l in Et by lia; lia. nia. lia.
 Qed.
 
-(* ---------------------------------------------------------------- instances at Z *)
-Local Notation zsmul := (smul Z 0 Z.add Z.mul).
-Local Notation zseval := (seval Z 0 Z.add Z.mul).
-Local Notation zpeq := (@peq Z 0).
-
-Ltac zinst := eauto using Zth, Zeqb_spec.
-
-Lemma z_from_vec_wf : forall p, wf Z 0 (zfv p).
-Proof. intros; eapply from_vec_wf; zinst. Qed.
-Lemma z_coeff_from_vec : forall p k, zcf (zfv p) k = nth (N.to_nat k) p 0.
-Proof. intros; eapply coeff_from_vec; zinst. Qed.
-Lemma z_from_vec_peq : forall p q, zpeq p q -> zfv p = zfv q.
-Proof. intros; eapply from_vec_peq; zinst. Qed.
-Lemma z_from_vec_dense : forall d, wf Z 0 d -> zfv (dense Z 0 d) = d.
-Proof. intros; eapply from_vec_dense; zinst. Qed.
-Lemma z_nth_dense : forall d k, sorted d -> nth k (dense Z 0 d) 0 = zcf d (N.of_nat k).
-Proof. intros; eapply nth_dense; zinst. Qed.
-Lemma z_keys_le_degree : forall d : zdict, sorted d -> Forall (fun kv => (fst kv <= degree d)%N) d.
-Proof. intros; eapply keys_le_degree; zinst. Qed.
-Lemma z_coeff_gt_degree : forall (d : zdict) j, sorted d -> (degree d < j)%N -> zcf d j = 0.
-Proof. intros; eapply coeff_gt_degree; zinst. Qed.
-Lemma z_from_vec_zero : forall p, (forall k, nth k p 0 = 0) -> zfv p = [].
-Proof. intros; eapply from_vec_zero; zinst. Qed.
-Lemma z_from_vec_nil_zero : forall p, zfv p = [] -> forall k, nth k p 0 = 0.
-Proof. intros; eapply from_vec_nil_zero; zinst. Qed.
-Lemma z_poly_eval_correct : forall p x, poly_eval Z 0 1 Z.add Z.mul (zfv p) x = zseval p x.
-Proof. intros; eapply poly_eval_correct; zinst. Qed.
-Lemma z_gmul_correct : forall p q, (degree (zfv p) + degree (zfv q) < W32)%N ->
-  zgmul (zfv p) (zfv q) = zfv (zsmul p q).
-Proof. intros; eapply gmul_correct; zinst. Qed.
-Lemma z_seval_smul : forall p q x, zseval (zsmul p q) x = zseval p x * zseval q x.
-Proof. intros; eapply seval_smul; zinst. Qed.
-Lemma z_seval_peq : forall p q x, zpeq p q -> zseval p x = zseval q x.
-Proof. intros; eapply seval_peq; zinst. Qed.
-Lemma z_smul_comm : forall p q k, nth k (zsmul p q) 0 = nth k (zsmul q p) 0.
-Proof. intros; eapply smul_comm; zinst. Qed.
-Lemma z_nth_smul_cons : forall a p q k,
-  nth k (zsmul (a :: p) q) 0 = a * nth k q 0 + shiftc Z 0 (zsmul p q) k.
-Proof. intros; eapply nth_smul_cons; zinst. Qed.
-Lemma z_nth_smul_zero_l : forall p q, (forall k, nth k p 0 = 0) -> forall k, nth k (zsmul p q) 0 = 0.
-Proof. intros; eapply nth_smul_zero_l; zinst. Qed.
-Lemma z_smul_zero_r : forall p q, (forall k, nth k q 0 = 0) -> forall k, nth k (zsmul p q) 0 = 0.
-Proof. intros p q H k. rewrite z_smul_comm. apply z_nth_smul_zero_l. exact H. Qed.
-Lemma z_seval_sneg : forall p x, zseval (sneg Z Z.opp p) x = - zseval p x.
-Proof. intros; eapply seval_sneg; zinst. Qed.
-Lemma z_cpow_succ : forall x n, cpow Z 1 Z.mul x (N.succ n) = x * cpow Z 1 Z.mul x n.
-Proof. intros; eapply cpow_succ; zinst. Qed.
-
-Lemma z_cpow : forall x n, cpow Z 1 Z.mul x n = x ^ Z.of_N n.
-Proof.
-  intros x n. induction n as [|n IH] using N.peano_ind. reflexivity.
-  rewrite z_cpow_succ, IH, N2Z.inj_succ, Z.pow_succ_r by lia. reflexivity.
-Qed.
